@@ -177,6 +177,10 @@ func (e *KnowledgeBase) MakeCatalog() *Catalog {
 		MemoryExpressionAtomVariableMap: nil,
 	}
 	for _, v := range e.RuleEntries {
+		if v.Deleted {
+			// the stream has no place for the Deleted mark, a removed rule must not come back when it is loaded.
+			continue
+		}
 		v.MakeCatalog(catalog)
 	}
 	e.WorkingMemory.MakeCatalog(catalog)
